@@ -605,6 +605,18 @@ func c10Scenarios(tier string) []*world.Scenario {
 	}
 	// more fragments for one node than one vectored write takes (1024 slices), queued by a single loop round
 	{
+		for _, n := range []int{1024, 2048} {
+			sc := BigBatchOneNode("C10", n, 0)
+			inner := sc.Check
+			sc.Check = func(w *world.World) []world.Violation {
+				vs := inner(w)
+				for i := range vs {
+					vs[i].Sig = "per-node-order-violated"
+				}
+				return vs
+			}
+			out = append(out, sc)
+		}
 		sc := BigBatch("C10", 1500, false, 1)
 		inner := sc.Check
 		sc.Check = func(w *world.World) []world.Violation {
